@@ -91,7 +91,11 @@ def program(g, sim, base, m, ns, script, check):
                         return '%s: message both claimed by a session and still stored as unclaimed' % where
         return None
 
+    nsel = sel = None
     for op, s, a in script:
+        # no strong reference to a selection may survive in the harness: pymap finds the sessions that have a mailbox
+        # selected through a WeakSet, a closed selection must be able to die
+        nsel = sel = None
         st = w.states[s]
         sel = st._selected
         if op in ('select', 'examine', 'select_o', 'examine_o'):
@@ -109,6 +113,12 @@ def program(g, sim, base, m, ns, script, check):
                 got = list(nsel.session_flags.recent_uids)
                 if len(got) != len(unclaimed):
                     return 'SELECT claimed %d of %d unclaimed \\Recent messages' % (len(got), len(unclaimed))
+                # ... and "unclaimed" is not taken from the store's own bookkeeping alone: a message that no
+                # selection has ever reported as \\Recent must be reported by this one
+                for uid, _, _ in store:
+                    if not entry(box, uid)[1] and not any(bool(uid == x) for x in got):
+                        return 'a message that was never \\Recent for anybody is not \\Recent for the first read-write selector'
+
                 # the announced RECENT number
                 if w.clients[s].recent != len(got):
                     return 'SELECT announced RECENT %r but %d messages are \\Recent' % (w.clients[s].recent, len(got))
@@ -148,17 +158,18 @@ def program(g, sim, base, m, ns, script, check):
             after = sorted(str(u) for u in nsel.session_flags.recent_uids)
             if before != after:
                 return 'STORE changed the \\Recent set of the session'
+        nsel = sel = None
         err = observe('after %s by %d' % (op, s))
         if err:
             return err
     return None
 
 
-def _harness(m, ns, d, ops):
+def _harness(m, ns, d, ops, prefix=()):
     def fn(eng):
         from pysymex import SymUid, B, AND, Outcome
         base = eng.fresh_int('base', 0, cls=SymUid)
-        script = []
+        script = [tuple(x) for x in prefix]
         for t in range(d):
             op = ops[eng.choose('op%d' % t, len(ops))]
             s = eng.choose('s%d' % t, ns)
@@ -182,12 +193,21 @@ def harnesses(tier):
     from pysymex.runner import Harness
     if tier == 'quick':
         cfgs = [(1, 2, 3, OPS), (1, 3, 3, ['select', 'examine', 'close', 'append', 'noop']), (1, 2, 3, OPS2)]
+        pre = [(0, 2, 3, ['select', 'close', 'append', 'noop'], [('select', 0, None), ('append', 1, None)])]
     else:
         cfgs = [(1, 2, 4, OPS), (2, 3, 4, ['select', 'examine', 'close', 'append', 'noop', 'copy_self']), (1, 2, 4, OPS2),
                 (1, 3, 4, ['select', 'examine_o', 'select_o', 'copy_self', 'copy_other', 'noop'])]
-    return [Harness('history[m=%d,sessions=%d,d=%d,ops=%d]' % (m, ns, d, len(ops)), _harness(m, ns, d, ops),
-                    {'initial_messages': m, 'sessions': ns, 'history_depth': d, 'ops': ops},
-                    replay='history', task_budget=60) for m, ns, d, ops in cfgs]
+        pre = [(0, 3, 4, ['select', 'examine', 'close', 'append', 'noop'], [('select', 0, None), ('append', 1, None)])]
+    hs = [Harness('history[m=%d,sessions=%d,d=%d,ops=%d]' % (m, ns, d, len(ops)), _harness(m, ns, d, ops),
+                  {'initial_messages': m, 'sessions': ns, 'history_depth': d, 'ops': ops},
+                  replay='history', task_budget=60) for m, ns, d, ops in cfgs]
+    # histories that start from "a session has the mailbox selected and another party delivered into it"
+    for m, ns, d, ops, prefix in pre:
+        hs.append(Harness('history_after_delivery[m=%d,sessions=%d,d=%d,ops=%d]' % (m, ns, d, len(ops)),
+                          _harness(m, ns, d, ops, prefix),
+                          {'initial_messages': m, 'sessions': ns, 'prefix': [list(x) for x in prefix], 'history_depth': d, 'ops': ops},
+                          replay='history', task_budget=60))
+    return hs
 
 
 def replay(harness, w):
